@@ -14,9 +14,11 @@ for every (default_trim, left, right) on generated texts, and the whitespace
 set of the model against CPython's `str.isspace` / `str.strip()` for every
 code point below 0x110000.
 
-Every template is rendered through render() AND render_async() in every
-configuration; the async output must equal the sync output exactly and goes
-through the same oracles.
+Every template is rendered through render() AND render_async(), each without
+and with all resource limits set, in every configuration; the four outputs
+must be identical and go through the same oracles.  The three default_trim
+environments are long-lived and visited in varying orders; every program is
+rendered again on them, interleaved, and must repeat its first outputs.
 
 Direct oracle (failing-input search, on the implementation only):
   * outputs of all marker assignments x default_trim x suppress of one program
